@@ -397,6 +397,16 @@ def _apply_common(piece, blk):
                 else:
                     piece.insert_before(j, ')', 'json_desugar')
             piece.replace_tokens(closer - 1, closer, '.vx_done()', 'json_desugar')
+    for anchor, repl in blk.get('elide_blocks', []):
+        # `<anchor> { ... }` -> `<anchor> <repl>`: the block right after the anchor is DROPPED (recorded) and replaced by a stub call;
+        # the block is verified separately as its own slice
+        hits, n = piece.find(anchor, unique=False, what='elide_block')
+        if len(hits) != 1 or piece.src.s[hits[0] + n].text != '{':
+            piece.counts['hint_skipped'] = piece.counts.get('hint_skipped', 0) + 1
+            continue
+        b0 = hits[0] + n
+        b1 = rtok.match_close(piece.src.s, b0)
+        piece.replace_tokens(b0, b1, repl, 'elide_block:' + anchor)
     for anchor, repl in blk.get('elides', []):
         # replace the whole argument list of every call `<anchor>` (anchor ends with `(`) by `repl`:
         # the dropped argument (a closure / async block) is verified separately as a slice
@@ -696,6 +706,17 @@ def _gen_literal(repo, blk, gen):
     gen.emit(f'pub const {a["name"]}: &str = {lit.text}; // literal #{nth} of {a["macro"]}! in {a["fn"]}')
 
 
+def _block_label(blk):
+    """the label under which a block's region and its `<unit>.<label>.body` obligation are known"""
+    a = blk['args']
+    if blk['type'] == 'slice':
+        return a['name']
+    kind = next((k for k in ('fn', 'struct', 'enum', 'const', 'static') if k in a), None)
+    if kind is None:
+        return a.get('name') or '?'
+    return a.get('as') or ((a.get('impl', '') + '::' if a.get('impl') else '') + a[kind])
+
+
 def generate(repo, template_text, variables=None):
     gen = Generated()
     lines = template_text.split('\n')
@@ -735,6 +756,12 @@ def generate(repo, template_text, variables=None):
             d, rest = m.group(1), m.group(2).strip()
             if d == 'end':
                 try:
+                    lab_ = _block_label(blk)
+                    skip_ = variables.get('__skip_blocks__') or {}
+                    if lab_ in skip_:
+                        # second pass of the driver: this block did not compile in the first pass (the code left the subset the
+                        # stubs cover); it is left out so that the rest of the unit can still be decided
+                        raise LostAnchor(f'{lab_}: does not compile against the unit\'s stubs: {skip_[lab_]}')
                     {'item': _gen_item, 'slice': _gen_slice}[blk['type']](repo, blk, gen)
                 except LostAnchor as e:
                     # this block cannot be extracted: its obligations are undecided, the rest of the unit goes on
@@ -751,7 +778,7 @@ def generate(repo, template_text, variables=None):
                         for ln_ in lines_:
                             mm = TAG.search(ln_)
                             if mm: tags.append(mm.group(1))
-                    gen.lost.append((a_.get('name') or a_.get('fn'), str(e), sorted(set(tags))))
+                    gen.lost.append((_block_label(blk), str(e), sorted(set(tags))))
                 blk = None
             elif d in ('spec', 'prologue', 'epilogue', 'header', 'const_ensures'):
                 blk[d] = []
@@ -768,6 +795,9 @@ def generate(repo, template_text, variables=None):
                 blk['json_desugar'] = True
             elif d == 'format_desugar':
                 blk['format_desugar'] = True
+            elif d == 'elide_block':
+                frm, to = re.split(r'(?<!<)==>', rest, maxsplit=1)
+                blk.setdefault('elide_blocks', []).append((frm.strip(), to.strip()))
             elif d == 'elide_arg':
                 frm, to = re.split(r'(?<!<)==>', rest, maxsplit=1)
                 blk.setdefault('elides', []).append((frm.strip(), to.strip()))
